@@ -12,7 +12,7 @@ State (facts that hold on every path to a point):
 """
 import guards
 from common import is_enr_ty, is_ref_to, short
-from kernel import E, ok_payload, strip, try_payload
+from kernel import E, ok_payload, strip, try_payload, unmut
 
 
 # ---------------------------------------------------------------- helpers
@@ -322,7 +322,7 @@ class RecordFlow:
             base = strip(x.a[1][0])
             step = const_int(x.a[1][1])
             if step is not None and base.k == "field" and base.a[1] == "seq":
-                r = strip(base.a[0])
+                r = unmut(base.a[0])
                 same = False
                 if self.via_param:
                     same = r.k == "param" and r.a[0] == self.root
@@ -377,7 +377,7 @@ class RecordFlow:
             return False
         node = d[2]
         dexpr = self.an.call_expr(node, d[0]) if (not hasattr(node, "rv") or node.rv is None) else self.an.rvalue_expr(node.rv, d[0], d[1])
-        return repr(strip(e)) == repr(strip(dexpr))
+        return repr(unmut(e)) == repr(unmut(dexpr))
 
     # -- transfer -------------------------------------------------------
     def apply(self, st, act):
@@ -450,7 +450,7 @@ class RecordFlow:
         return st
 
     def _refers_to_obj(self, e):
-        e = strip(e)
+        e = unmut(e)
         if self.via_param:
             return e.k == "param" and e.a[0] == self.root
         return self._is_obj_expr(e)
